@@ -82,7 +82,7 @@ fn vp_native_request_wire_roundtrip_body() {
                 set_host(&mut req.headers, &url).unwrap();
                 req.write_request(&mut wire, &url, None).unwrap();
                 let r = decode_request(&wire);
-                cases += 1;
+                cases += 1; crate::verif_native_watchdog::progress();
                 assert_eq!((r.method.as_str(), r.target.as_str()), ("POST", "/p?q=1"));
                 assert!(r.body == want, "body of {} bytes decoded as {} bytes (chunked {}, write sizes {:?}, preset {:?})", want.len(), r.body.len(), chunked, pieces.iter().map(|p| p.len()).collect::<Vec<_>>(), preset);
                 assert!(r.trailing.is_empty(), "{} stray bytes after the request", r.trailing.len());
@@ -101,14 +101,14 @@ fn vp_native_request_wire_roundtrip_body() {
             let mut wire = Vec::new(); let url = req.url().clone();
             set_host(&mut req.headers, &url).unwrap();
             req.write_request(&mut wire, &url, None).unwrap();
-            let r = decode_request(&wire); cases += 1;
+            let r = decode_request(&wire); cases += 1; crate::verif_native_watchdog::progress();
             assert_eq!(r.method, m);
             assert!(r.body == want && r.trailing.is_empty(), "{} with a {} body: {} of {} body bytes decoded, {} stray bytes (headers {:?})", m, what, r.body.len(), want.len(), r.trailing.len(), r.headers.iter().map(|(n, v)| format!("{}: {}", n, String::from_utf8_lossy(v))).collect::<Vec<_>>());
         }
         let mut req = crate::RequestBuilder::new(method.clone(), "http://h.test/p").text("body text").prepare();
         let mut wire = Vec::new(); let url = req.url().clone();
         req.write_request(&mut wire, &url, None).unwrap();
-        let r = decode_request(&wire); cases += 1;
+        let r = decode_request(&wire); cases += 1; crate::verif_native_watchdog::progress();
         assert!(r.body == b"body text" && r.trailing.is_empty(), "{} with a text body", m);
     }
     // library bodies
@@ -116,13 +116,13 @@ fn vp_native_request_wire_roundtrip_body() {
         let mut req = crate::RequestBuilder::new(http::Method::PUT, "http://h.test/").text(text).prepare();
         let mut wire = Vec::new(); let url = req.url().clone();
         req.write_request(&mut wire, &url, None).unwrap();
-        let r = decode_request(&wire); cases += 1;
+        let r = decode_request(&wire); cases += 1; crate::verif_native_watchdog::progress();
         assert_eq!(r.body, text.as_bytes()); assert_eq!(header(&r, "content-length"), vec![text.len().to_string().as_bytes()]);
     }
     let mut req = crate::RequestBuilder::new(http::Method::GET, "http://h.test/").prepare();
     let mut wire = Vec::new(); let url = req.url().clone();
     req.write_request(&mut wire, &url, None).unwrap();
-    let r = decode_request(&wire); cases += 1;
+    let r = decode_request(&wire); cases += 1; crate::verif_native_watchdog::progress();
     assert!(r.body.is_empty() && header(&r, "content-length").is_empty() && header(&r, "transfer-encoding").is_empty());
     println!("VP-NATIVE request_wire_roundtrip cases={}", cases);
 }
@@ -154,7 +154,7 @@ fn vp_native_target_and_host_matrix_body() {
         set_host(&mut req.headers, &host_url).unwrap();
         let mut wire = Vec::new();
         req.write_request(&mut wire, &url, proxy.as_ref()).unwrap();
-        let r = decode_request(&wire); cases += 1;
+        let r = decode_request(&wire); cases += 1; crate::verif_native_watchdog::progress();
         let origin_form = { let mut t = url.path().to_string(); if let Some(q) = url.query() { t.push('?'); t.push_str(q); } t };
         if proxy.is_some() && url.scheme() == "http" {
             let mut abs = url.clone(); abs.set_fragment(None); let _ = abs.set_username(""); let _ = abs.set_password(None);
@@ -188,24 +188,24 @@ fn vp_native_peer_is_the_url_host_body() {
     let direct = { let mut s = crate::Session::new(); s.proxy_settings(crate::ProxySettings::builder().build()); s.connect_timeout(std::time::Duration::from_secs(2)); s };
     let mut cases = 0u64;
     // IPv4 literal
-    let r = direct.get(format!("http://127.0.0.1:{}/a", p4)).send().unwrap(); cases += 1;
+    let r = direct.get(format!("http://127.0.0.1:{}/a", p4)).send().unwrap(); cases += 1; crate::verif_native_watchdog::progress();
     assert_eq!(r.text().unwrap(), "v4"); settle(&log4, 1);
     assert_eq!(log4.lock().unwrap().last().unwrap().host.as_deref(), Some(&format!("127.0.0.1:{}", p4)[..]));
     // IPv6 literal: reaches the IPv6 listener, Host keeps the brackets
-    let r = direct.get(format!("http://[::1]:{}/b?x=1", p6)).send().unwrap_or_else(|e| panic!("http://[::1]:{}/ must reach the listener on [::1]:{}: {}", p6, p6, e)); cases += 1;
+    let r = direct.get(format!("http://[::1]:{}/b?x=1", p6)).send().unwrap_or_else(|e| panic!("http://[::1]:{}/ must reach the listener on [::1]:{}: {}", p6, p6, e)); cases += 1; crate::verif_native_watchdog::progress();
     assert_eq!(r.text().unwrap(), "v6");
     { let l = log6.lock().unwrap(); let q = l.last().expect("the IPv6 listener saw the request");
       assert_eq!(q.target, "/b?x=1"); assert_eq!(header(q, "host"), vec![format!("[::1]:{}", p6).as_bytes()]); }
     // a proxy given as an IPv6 literal is the peer; absolute-form, Host of the proxy
     let via6 = { let mut s = crate::Session::new(); s.proxy_settings(crate::ProxySettings::builder().http_proxy(Url::parse(&format!("http://[::1]:{}", p6)).unwrap()).build()); s };
     let before = log6.lock().unwrap().len();
-    let r = via6.get("http://origin.test/c").send().unwrap(); cases += 1;
+    let r = via6.get("http://origin.test/c").send().unwrap(); cases += 1; crate::verif_native_watchdog::progress();
     assert_eq!(r.text().unwrap(), "v6");
     { let l = log6.lock().unwrap(); assert_eq!(l.len(), before + 1); assert_eq!(l.last().unwrap().target, "http://origin.test/c"); }
     // an IPv6 literal that embeds an IPv4 address is still an IPv6 address: it must not be dialled as 127.0.0.1
     let before4 = log4.lock().unwrap().len();
     for host in ["[::127.0.0.1]", "[::7f00:1]"] {
-        let res = direct.get(format!("http://{}:{}/d", host, p4)).send(); cases += 1;
+        let res = direct.get(format!("http://{}:{}/d", host, p4)).send(); cases += 1; crate::verif_native_watchdog::progress();
         std::thread::sleep(std::time::Duration::from_millis(50));
         assert_eq!(log4.lock().unwrap().len(), before4, "the request for {}:{} was sent to 127.0.0.1:{} ({:?})", host, p4, p4, res.map(|r| r.status()));
     }
@@ -249,7 +249,7 @@ fn vp_native_tls_verification_matrix_body() {
         if let Some(c) = root(added) { b = b.add_root_certificate(c); }
         if certs_flag { b = b.danger_accept_invalid_certs(true); }
         if names_flag { b = b.danger_accept_invalid_hostnames(true); }
-        let res = b.send(); cases += 1;
+        let res = b.send(); cases += 1; crate::verif_native_watchdog::progress();
         let chain_ok = (server_valid && added == 1) || (!server_valid && added == 2);   // self-signed: trusted only when added itself
         let expect = certs_flag || (chain_ok && server_valid && (host == "localhost" || names_flag));
         let ctx = format!("server certificate {} / root added {} / accept_invalid_certs {} / accept_invalid_hostnames {} / host {}", if server_valid { "valid for localhost" } else { "expired" }, ["none", "the valid certificate", "the expired certificate"][added], certs_flag, names_flag, host);
@@ -269,7 +269,7 @@ fn vp_native_tls_verification_matrix_body() {
         if let Some(c) = root(added) { b = b.add_root_certificate(c); }
         if certs_flag { b = b.danger_accept_invalid_certs(true); }
         if names_flag { b = b.danger_accept_invalid_hostnames(true); }
-        let res = b.send(); cases += 1;
+        let res = b.send(); cases += 1; crate::verif_native_watchdog::progress();
         let expect = certs_flag || (added == 1 && (host == "localhost" || names_flag));
         let ctx = format!("through a CONNECT tunnel: root added {} / accept_invalid_certs {} / accept_invalid_hostnames {} / origin {}", ["none", "the valid certificate"][added], certs_flag, names_flag, host);
         match res {
@@ -287,7 +287,7 @@ fn vp_native_tls_verification_matrix_body() {
         if let Some(c) = root(added) { b = b.add_root_certificate(c); }
         if certs_flag { b = b.danger_accept_invalid_certs(true); }
         if names_flag { b = b.danger_accept_invalid_hostnames(true); }
-        let res = b.send(); cases += 1;
+        let res = b.send(); cases += 1; crate::verif_native_watchdog::progress();
         let expect = certs_flag || (added == 1 && ((proxy_host == "localhost" && origin_host == "localhost") || names_flag));
         let ctx = format!("https proxy {} / origin {} / root added {} / accept_invalid_certs {} / accept_invalid_hostnames {}", proxy_host, origin_host, ["none", "the valid certificate"][added], certs_flag, names_flag);
         match res {
@@ -309,9 +309,9 @@ fn vp_native_tls_verification_matrix_body() {
                         tls.write_all(&resp(302, Some(&loc), "")).ok(); tls.conn.send_close_notify(); tls.flush().ok(); } }); } });
             port };
         let s = { let mut s = direct(); s.add_root_certificate(crate::tls::Certificate::from_pem(LOCALHOST_CERT.as_bytes()).unwrap()); s };
-        let r = s.get(format!("https://localhost:{}/to-name", redirecting)).send().unwrap_or_else(|e| panic!("a redirect between two verified https origins: {}", e)); cases += 1;
+        let r = s.get(format!("https://localhost:{}/to-name", redirecting)).send().unwrap_or_else(|e| panic!("a redirect between two verified https origins: {}", e)); cases += 1; crate::verif_native_watchdog::progress();
         assert_eq!(r.text().unwrap(), "tls-ok");
-        assert!(s.get(format!("https://localhost:{}/to-ip", redirecting)).send().is_err(), "a redirect led to an https origin whose certificate does not match its name, and the exchange succeeded"); cases += 1;
+        assert!(s.get(format!("https://localhost:{}/to-ip", redirecting)).send().is_err(), "a redirect led to an https origin whose certificate does not match its name, and the exchange succeeded"); cases += 1; crate::verif_native_watchdog::progress();
     }
     // the flags in effect are the last values set, whatever was set before: every sequence of up to 3 calls out of
     // {certs(true), certs(false), names(true), names(false)} on a session, then up to 1 on a request of it; the server presents the
@@ -328,7 +328,7 @@ fn vp_native_tls_verification_matrix_body() {
             let mut b = sess.get(format!("https://{}:{}/", host, ports[1]));
             if with_root { b = b.add_root_certificate(root(1).unwrap()); }
             if let Some(o) = req_op { let (is_c, v) = ops[o]; if is_c { b = b.danger_accept_invalid_certs(v); certs = v; } else { b = b.danger_accept_invalid_hostnames(v); names = v; } }
-            let res = b.send(); cases += 1;
+            let res = b.send(); cases += 1; crate::verif_native_watchdog::progress();
             let expect = certs || (with_root && (host == "localhost" || names));
             let show = |o: usize| format!("{}({})", if ops[o].0 { "accept_invalid_certs" } else { "accept_invalid_hostnames" }, ops[o].1);
             let ctx = format!("session calls [{}], request call {:?}, host {}, root {}", seq.iter().map(|&o| show(o)).collect::<Vec<_>>().join(", "), req_op.map(show), host, if with_root { "added" } else { "not added" });
@@ -336,7 +336,7 @@ fn vp_native_tls_verification_matrix_body() {
         } } }
     }
     // both checks are on by default: a stand-alone request, a fresh session
-    assert!(crate::get(format!("https://localhost:{}/", ports[1])).proxy_settings(crate::ProxySettings::builder().build()).send().is_err(), "an unknown self-signed certificate was accepted by default"); cases += 1;
+    assert!(crate::get(format!("https://localhost:{}/", ports[1])).proxy_settings(crate::ProxySettings::builder().build()).send().is_err(), "an unknown self-signed certificate was accepted by default"); cases += 1; crate::verif_native_watchdog::progress();
     // a flag or an added root affects exactly the session or request it was set on
     let url_ok = format!("https://localhost:{}/", ports[1]);
     let url_name = format!("https://127.0.0.1:{}/", ports[1]);
@@ -383,7 +383,9 @@ fn vp_native_host_inside_tunnel_body() {
             let mut s = crate::Session::new();
             s.proxy_settings(crate::ProxySettings::builder().https_proxy(Url::parse(&purl).unwrap()).build());
             s.danger_accept_invalid_certs(true);
-            let res = s.get(url).send(); cases += 1;
+            let res = s.get(url).send(); cases += 1; crate::verif_native_watchdog::progress();
+            // the proxy records an exchange when it is over on its side, which may be a moment after the client has its answer
+            for _ in 0..200 { if !log.lock().unwrap().is_empty() { break; } std::thread::sleep(std::time::Duration::from_millis(20)); }
             let hops = log.lock().unwrap().clone();
             assert_eq!(hops.len(), 1, "{}: {:?}", url, hops);
             let ch = hops[0].connect_head.as_ref().unwrap_or_else(|| panic!("{}: an https URL behind a proxy is tunnelled", url));
@@ -414,7 +416,7 @@ fn vp_native_settings_flow_body() {
         let u = "http://h.test/";
         let mut b = match m { "GET" => s.get(u), "POST" => s.post(u), "PUT" => s.put(u), "DELETE" => s.delete(u), "HEAD" => s.head(u), "OPTIONS" => s.options(u), "PATCH" => s.patch(u), _ => s.trace(u) };
         if !on_session { b = b.allow_compression(allow); if let Some((n, v)) = extra { b = b.header(n, v); } }
-        let p = b.prepare(); cases += 1;
+        let p = b.prepare(); cases += 1; crate::verif_native_watchdog::progress();
         let ae: Vec<&[u8]> = p.headers().get_all("accept-encoding").iter().map(|v| v.as_bytes()).collect();
         assert_eq!(ae, if allow { vec![&b"gzip, deflate"[..]] } else { vec![] }, "Accept-Encoding of a {} request with allow_compression({}) set on the {} and extra header {:?}", m, allow, if on_session { "session" } else { "request" }, extra);
     } } } }
@@ -428,7 +430,7 @@ fn vp_native_settings_flow_body() {
         let r2 = s.get("http://h.test/").max_redirections(3).header("Accept", "text/plain").header_append("X-B", "b3");
         let r3 = clone.get("http://h.test/").timeout(std::time::Duration::from_secs(1));
         let (p1, p2, p3) = (r1.prepare(), r2.prepare(), r3.prepare());
-        cases += 1;
+        cases += 1; crate::verif_native_watchdog::progress();
         let vals = |p: &PreparedRequest<body::Empty>, n: &str| -> Vec<String> { p.headers().get_all(n).iter().map(|v| v.to_str().unwrap().to_string()).collect() };
         assert_eq!(p1.base_settings.max_headers, first); assert_eq!(p3.base_settings.max_headers, first); assert_eq!(p2.base_settings.max_headers, second);
         assert_eq!(p1.base_settings.follow_redirects, follow); assert_eq!(p2.base_settings.follow_redirects, follow);
@@ -530,7 +532,7 @@ fn vp_native_settings_sequences_body() {
                 if !valid { break; }
             }
             if valid {
-                cases += 1;
+                cases += 1; crate::verif_native_watchdog::progress();
                 for (k, (b, m)) in builders.iter_mut().enumerate() { let mut p = b.take().unwrap().prepare(); check(&format!("request {}", k), &seq, &mut p, m); }
                 for (k, (s, m)) in sessions.iter().enumerate() { let mut p = s.get("http://h.test/").prepare(); check(&format!("session {} (seen through a fresh request)", k), &seq, &mut p, m); }
             }
@@ -625,24 +627,24 @@ fn vp_native_redirect_chains_body() {
     let base = format!("http://127.0.0.1:{}", port);
     let s = { let mut s = crate::Session::new(); s.proxy_settings(crate::ProxySettings::builder().build()); s };
     let mut cases = 0u64;
-    let r = s.get(format!("{}/a/start", base)).send().unwrap(); cases += 1;
+    let r = s.get(format!("{}/a/start", base)).send().unwrap(); cases += 1; crate::verif_native_watchdog::progress();
     assert_eq!((r.status().as_u16(), r.url().as_str()), (200, &format!("{}/b/final?x=1", base)[..]), "relative Location must be resolved against the hop that produced it");
-    let r = s.get(format!("{}/q/start", base)).send().unwrap(); cases += 1;
+    let r = s.get(format!("{}/q/start", base)).send().unwrap(); cases += 1; crate::verif_native_watchdog::progress();
     assert_eq!(r.url().as_str(), format!("{}/r/page?z=3", base), "query-only Location");
     for max in [0u32, 1, 3] {
         settle(&log, 0); log.lock().unwrap().clear();
-        let e = s.get(format!("{}/loop", base)).max_redirections(max).send(); cases += 1;
+        let e = s.get(format!("{}/loop", base)).max_redirections(max).send(); cases += 1; crate::verif_native_watchdog::progress();
         assert!(matches!(e.map_err(|e| e.into_kind()), Err(crate::ErrorKind::TooManyRedirections)));
         settle(&log, 1);
         let n = log.lock().unwrap().len();
         assert!(n as u32 <= max + 1, "{} requests sent with max_redirections {}", n, max);
     }
-    for p in ["/300", "/304"] { let r = s.get(format!("{}{}", base, p)).send().unwrap(); cases += 1; assert_eq!(r.url().path(), p, "{} must not be followed", p); }
-    let r = s.get(format!("{}/a/start", base)).follow_redirects(false).send().unwrap(); cases += 1; assert_eq!(r.status().as_u16(), 302);
+    for p in ["/300", "/304"] { let r = s.get(format!("{}{}", base, p)).send().unwrap(); cases += 1; crate::verif_native_watchdog::progress(); assert_eq!(r.url().path(), p, "{} must not be followed", p); }
+    let r = s.get(format!("{}/a/start", base)).follow_redirects(false).send().unwrap(); cases += 1; crate::verif_native_watchdog::progress(); assert_eq!(r.status().as_u16(), 302);
     assert!(s.get(format!("{}/noloc", base)).send().is_err()); assert!(s.get(format!("{}/badloc", base)).send().is_err()); cases += 2;
     // 307/308 replay the method and the body bytes on every hop
     settle(&log, 0); log.lock().unwrap().clear();
-    let r = s.post(format!("{}/post307", base)).text("payload-123").send().unwrap(); cases += 1;
+    let r = s.post(format!("{}/post307", base)).text("payload-123").send().unwrap(); cases += 1; crate::verif_native_watchdog::progress();
     assert_eq!(r.url().path(), "/posted");
     settle(&log, 3);
     let seen = log.lock().unwrap().clone();
@@ -728,7 +730,7 @@ fn vp_native_redirect_hops_with_bodies_body() {
             _ => (rb.body(Writes { pieces: vec![piece(5, 1), piece(9000, 2)], chunked: false }).send(), Some([piece(5, 1), piece(9000, 2)].concat())),
         };
         let seen = log.lock().unwrap().clone();
-        cases += 1;
+        cases += 1; crate::verif_native_watchdog::progress();
         let ctx = format!("status {} body kind {}", status, kind);
         let r = res.unwrap_or_else(|e| panic!("{}: {}", ctx, e));
         assert_eq!((r.status().as_u16(), r.url().as_str()), (200, &format!("http://127.0.0.1:{}/{}/end", a, status)[..]), "{}", ctx);
@@ -814,7 +816,7 @@ fn vp_native_redirect_matrix_body() {
             seen.lock().unwrap().clear();
             let res = s.get(&start).max_redirections(max).follow_redirects(follow).send();
             let sent = seen.lock().unwrap().clone();
-            cases += 1;
+            cases += 1; crate::verif_native_watchdog::progress();
             let ctx = format!("status {} chain {} max_redirections {} Location form {} follow {}", status, n, max, form, follow);
             let followed = follow && [301u16, 302, 303, 307, 308].contains(&status) && n > 0;
             assert!(sent.iter().all(|t| !t.contains('#')), "a fragment was sent: {:?} ({})", sent, ctx);
@@ -841,25 +843,25 @@ fn vp_native_redirect_matrix_body() {
         let mut s8 = s.clone(); s8.max_redirections(8);
         let chain7 = format!("{}/c/302/7/abs/x", base);
         seen.lock().unwrap().clear();
-        let res = s8.get(&chain7).max_redirections(5).send(); cases += 1;
+        let res = s8.get(&chain7).max_redirections(5).send(); cases += 1; crate::verif_native_watchdog::progress();
         assert!(matches!(res.map_err(|e| e.into_kind()), Err(crate::ErrorKind::TooManyRedirections)), "max_redirections(5) set on a request of a session with limit 8: a chain of 7 must fail");
         assert_eq!(seen.lock().unwrap().len(), 6, "at most 5 redirects are followed when the request says 5");
         seen.lock().unwrap().clear();
-        let r = s8.get(&chain7).send().unwrap(); cases += 1;
+        let r = s8.get(&chain7).send().unwrap(); cases += 1; crate::verif_native_watchdog::progress();
         assert_eq!((r.status().as_u16(), seen.lock().unwrap().len()), (200, 8), "the session's limit of 8 covers a chain of 7");
         let mut soff = s.clone(); soff.follow_redirects(false);
         seen.lock().unwrap().clear();
-        let r = soff.get(format!("{}/c/301/2/path/x", base)).follow_redirects(true).send().unwrap(); cases += 1;
+        let r = soff.get(format!("{}/c/301/2/path/x", base)).follow_redirects(true).send().unwrap(); cases += 1; crate::verif_native_watchdog::progress();
         assert_eq!((r.status().as_u16(), seen.lock().unwrap().len()), (200, 3), "follow_redirects(true) on a request of a session that switched following off");
         seen.lock().unwrap().clear();
-        let r = soff.get(format!("{}/c/301/2/path/x", base)).send().unwrap(); cases += 1;
+        let r = soff.get(format!("{}/c/301/2/path/x", base)).send().unwrap(); cases += 1; crate::verif_native_watchdog::progress();
         assert_eq!((r.status().as_u16(), seen.lock().unwrap().len()), (301, 1), "the session switched following off");
     }
     // an empty or fragment-only Location is a reference to the same document: the next request goes to this hop's URL, query included
     for status in [301u16, 302, 303, 307, 308] { for form in ["empty", "frag"] { for q in ["?token=1&x=y", ""] {
         let start = format!("{}/samedoc/{}/{}/x{}", base, status, form, q);
         seen.lock().unwrap().clear();
-        let res = s.get(&start).send(); cases += 1;
+        let res = s.get(&start).send(); cases += 1; crate::verif_native_watchdog::progress();
         let sent = seen.lock().unwrap().clone();
         let ctx = format!("status {} Location {:?} on a hop with query {:?}", status, if form == "empty" { "" } else { "#done" }, q);
         let r = res.unwrap_or_else(|e| panic!("{}: {} (requests {:?})", ctx, e, sent));
@@ -874,7 +876,7 @@ fn vp_native_redirect_matrix_body() {
         seen.lock().unwrap().clear();
         let res = s.get(&start).max_redirections(max).send();
         let sent = seen.lock().unwrap().clone();
-        cases += 1;
+        cases += 1; crate::verif_native_watchdog::progress();
         let ctx = format!("status {} depth {} max_redirections {} Location ../ on every hop", status, n, max);
         if n as u32 <= max {
             let r = res.unwrap_or_else(|e| panic!("{}: {} (requests {:?})", ctx, e, sent));
@@ -889,7 +891,7 @@ fn vp_native_redirect_matrix_body() {
         seen.lock().unwrap().clear();
         assert!(s.get(format!("{}{}", base, p)).send().is_err(), "{} must be an error", p);
         assert_eq!(seen.lock().unwrap().len(), 1, "{}: an unusable Location is not followed", p);
-        cases += 1;
+        cases += 1; crate::verif_native_watchdog::progress();
     }
     println!("VP-NATIVE redirect_matrix cases={}", cases);
 }
@@ -983,7 +985,7 @@ fn vp_native_stalled_body_is_an_error_body() {
                     assert!(errors > 0, "no error was ever reported ({})", ctx);
                 }
             }
-            cases += 1;
+            cases += 1; crate::verif_native_watchdog::progress();
         }
         cases })
     }).collect();
@@ -1037,7 +1039,7 @@ fn vp_native_body_delivered_as_it_arrives_body() {
         }
         assert_eq!(got, &body[..k], "{}", ctx);
         let _ = t0;   // a read that waits for the server runs into the 4 s read timeout and fails above; no wall-clock assertion
-        cases += 1;
+        cases += 1; crate::verif_native_watchdog::progress();
     } } }
     // responses without a body: sending returns at the blank line and the empty body is read without waiting, the server holding the connection open
     for (kind, head) in [("Content-Length: 0", "HTTP/1.1 200 OK\r\nContent-Length: 0\r\n\r\n"), ("204", "HTTP/1.1 204 No Content\r\n\r\n"), ("304", "HTTP/1.1 304 Not Modified\r\nContent-Length: 10\r\n\r\n"),
@@ -1059,7 +1061,7 @@ fn vp_native_body_delivered_as_it_arrives_body() {
             .unwrap_or_else(|e| panic!("send() must return once the head of a body-less response ({}) has arrived: {} after {:?}", kind, e, t0.elapsed()));
         let body = resp.bytes().unwrap_or_else(|e| panic!("the empty body of a {} response must be readable at once: {}", kind, e));
         assert!(body.is_empty(), "{}", kind);
-        cases += 1;
+        cases += 1; crate::verif_native_watchdog::progress();
     }
     println!("VP-NATIVE body_delivered_as_it_arrives cases={}", cases);
 }
@@ -1088,7 +1090,7 @@ fn vp_native_connect_refusals_body() {
             let purl = match cred { Some(c) => format!("http://{}@127.0.0.1:{}", c, proxy), None => format!("http://127.0.0.1:{}", proxy) };
             s.proxy_settings(crate::ProxySettings::builder().https_proxy(Url::parse(&purl).unwrap()).build());
             let e = s.post(origin).header("Authorization", "Bearer tok").header("X-Caller", "caller-header").text("topsecret").send();
-            cases += 1;
+            cases += 1; crate::verif_native_watchdog::progress();
             settle(&log, 1);
             let seen = log.lock().unwrap().clone();
             let ctx = format!("status {} reply body {} bytes (Content-Length: {}) origin {} proxy credentials {:?}", status, blen, with_cl, origin, cred);
@@ -1118,7 +1120,7 @@ fn vp_native_connect_refusals_body() {
         let proxy = serve(log.clone(), move |_, _| format!("HTTP/1.1 {} Connection established\r\n\r\n", status).into_bytes());
         let mut s = crate::Session::new();
         s.proxy_settings(crate::ProxySettings::builder().https_proxy(Url::parse(&format!("http://pu:pw@localhost:{}", proxy)).unwrap()).build());
-        let e = s.post("https://origin-name.test:8443/secret").header("Authorization", "Bearer tok").text("topsecret").send(); cases += 1;
+        let e = s.post("https://origin-name.test:8443/secret").header("Authorization", "Bearer tok").text("topsecret").send(); cases += 1; crate::verif_native_watchdog::progress();
         assert!(e.is_err(), "the fake proxy never completes a TLS handshake");
         settle(&log, 1);
         let seen = log.lock().unwrap().clone();
@@ -1139,7 +1141,7 @@ fn vp_native_connect_refusals_body() {
         let proxy = serve(log.clone(), move |_, _| j.clone());
         let mut s = crate::Session::new();
         s.proxy_settings(crate::ProxySettings::builder().https_proxy(Url::parse(&format!("http://127.0.0.1:{}", proxy)).unwrap()).build());
-        let e = s.post("https://origin.test/secret").text("topsecret").send(); cases += 1;
+        let e = s.post("https://origin.test/secret").text("topsecret").send(); cases += 1; crate::verif_native_watchdog::progress();
         assert!(e.is_err(), "CONNECT reply {:?} must be an error", String::from_utf8_lossy(junk));
         settle(&log, 1);
         let seen = log.lock().unwrap().clone();
@@ -1323,7 +1325,7 @@ fn vp_native_tunnel_interior_body() {
         let start = match first_hop { "https" => "https://localhost:9443/final?x=1", "http-then-https" => "http://plain.test/start", _ => "https://localhost:8443/start" };
         let b = (if body.is_some() { s.post(start) } else { s.get(start) }).header("Authorization", "Bearer caller-token").header("X-Caller", "caller-header");
         let res = match body { Some(t) => b.text(t).send(), None => b.send() };
-        cases += 1;
+        cases += 1; crate::verif_native_watchdog::progress();
         let ctx = format!("start {} proxy credentials {} body {:?}", start, creds, body);
         let hops = log.lock().unwrap().clone();
         let r = res.unwrap_or_else(|e| panic!("{}: {} (hops {:?})", ctx, e, hops));
@@ -1361,7 +1363,7 @@ fn vp_native_tunnel_interior_body() {
         s.proxy_settings(crate::ProxySettings::builder().https_proxy(Url::parse(&purl).unwrap()).build());
         s.danger_accept_invalid_certs(true);
         let res = s.post(format!("https://{}:9443/final", origin_host)).header("Authorization", "Bearer caller-token").text("topsecret-body").send();
-        cases += 1;
+        cases += 1; crate::verif_native_watchdog::progress();
         let ctx = format!("https proxy {} origin {} proxy credentials {}", proxy_host, origin_host, creds);
         let hops = log.lock().unwrap().clone();
         let r = res.unwrap_or_else(|e| panic!("{}: {} (proxy saw {:?})", ctx, e, hops));
@@ -1392,7 +1394,7 @@ fn vp_native_tunnel_interior_body() {
         s.proxy_settings(crate::ProxySettings::builder().https_proxy(Url::parse(&format!("https://localhost:{}", proxy)).unwrap()).build());
         s.add_root_certificate(crate::tls::Certificate::from_pem(LOCALHOST_CERT.as_bytes()).unwrap());
         let res = s.get(format!("https://{}:9443/final", origin_host)).send();
-        cases += 1;
+        cases += 1; crate::verif_native_watchdog::progress();
         let hops = log.lock().unwrap().clone();
         if must_succeed {
             let r = res.unwrap_or_else(|e| panic!("verified tunnel to https://localhost through https://localhost: {} (proxy saw {:?})", e, hops));
@@ -1418,7 +1420,7 @@ fn vp_native_connect_refusal_body_cap_body() {
             w.extend_from_slice(body.as_bytes()); w });
         let mut s = crate::Session::new();
         s.proxy_settings(crate::ProxySettings::builder().https_proxy(Url::parse(&format!("http://127.0.0.1:{}", proxy)).unwrap()).build());
-        let e = s.get("https://origin.test/").send(); cases += 1;
+        let e = s.get("https://origin.test/").send(); cases += 1; crate::verif_native_watchdog::progress();
         match e.map_err(|e| e.into_kind()) {
             Err(crate::ErrorKind::ConnectError { body, .. }) => assert!(body.len() <= 10 * 1024, "refusal body of {} bytes kept (status {}, declared length {:?}, {} bytes sent)", body.len(), status, if with_cl { Some(declared) } else { None }, blen),
             Err(_) => {}
@@ -1469,7 +1471,7 @@ fn vp_native_header_map_model_body() {
                 assert_eq!(real.iter().count(), model.len(), "iteration yields every entry once");
                 assert_eq!(real.keys_len(), { let mut ks: Vec<&String> = model.iter().map(|(m, _)| m).collect(); ks.sort(); ks.dedup(); ks.len() }, "distinct names");
             }
-            cases += 1;
+            cases += 1; crate::verif_native_watchdog::progress();
         }
         let mut k = depth;
         loop { if k == 0 { break 'outer; } k -= 1; idx[k] += 1; if idx[k] < ops.len() { break; } idx[k] = 0; }
@@ -1530,7 +1532,7 @@ fn vp_native_multipart_request_on_the_wire_body() {
         let url = req.url().clone();
         set_host(&mut req.headers, &url).unwrap();
         let mut wire = Vec::new(); req.write_request(&mut wire, &url, None).unwrap();
-        let r = decode_request(&wire); cases += 1;   // decode_request itself refuses a Content-Length larger than what was written, both framings at once, malformed chunks
+        let r = decode_request(&wire); cases += 1; crate::verif_native_watchdog::progress();   // decode_request itself refuses a Content-Length larger than what was written, both framings at once, malformed chunks
         let ctx = format!("form with {} text fields of about {} bytes and {} files", ntext, textlen, nfiles);
         assert!(r.trailing.is_empty(), "{}: {} bytes were written after the frame the headers announce (Content-Length {:?})", ctx, r.trailing.len(), header(&r, "content-length").first().map(|v| String::from_utf8_lossy(v).to_string()));
         let ct = header(&r, "content-type"); assert_eq!(ct.len(), 1, "{}", ctx);
@@ -1552,19 +1554,19 @@ fn vp_native_builder_features_roundtrip_body() {
     use http::Method;
     let mut cases = 0u64;
     for m in [Method::GET, Method::POST, Method::PUT, Method::DELETE, Method::HEAD, Method::OPTIONS, Method::PATCH, Method::TRACE] {
-        let r = wire_of(crate::RequestBuilder::new(m.clone(), "http://h.test/x")); cases += 1;
+        let r = wire_of(crate::RequestBuilder::new(m.clone(), "http://h.test/x")); cases += 1; crate::verif_native_watchdog::progress();
         assert_eq!((r.method.as_str(), r.target.as_str()), (m.as_str(), "/x"));
         assert!(r.body.is_empty());
     }
     let u = "http://h.test/";
     for (b, name) in [(crate::get(u), "GET"), (crate::post(u), "POST"), (crate::put(u), "PUT"), (crate::delete(u), "DELETE"),
                       (crate::head(u), "HEAD"), (crate::options(u), "OPTIONS"), (crate::patch(u), "PATCH"), (crate::trace(u), "TRACE")] {
-        assert_eq!(wire_of(b).method, name); cases += 1;
+        assert_eq!(wire_of(b).method, name); cases += 1; crate::verif_native_watchdog::progress();
     }
     let sess = crate::Session::new();
     for (b, name) in [(sess.get(u), "GET"), (sess.post(u), "POST"), (sess.put(u), "PUT"), (sess.delete(u), "DELETE"),
                       (sess.head(u), "HEAD"), (sess.options(u), "OPTIONS"), (sess.patch(u), "PATCH"), (sess.trace(u), "TRACE")] {
-        assert_eq!(wire_of(b).method, name, "method of a request created from a session"); cases += 1;
+        assert_eq!(wire_of(b).method, name, "method of a request created from a session"); cases += 1; crate::verif_native_watchdog::progress();
     }
     assert!(crate::RequestBuilder::try_new(Method::CONNECT, "http://h.test/").is_err());
     // query parameters
@@ -1573,45 +1575,45 @@ fn vp_native_builder_features_roundtrip_body() {
     for base in ["http://h.test/p", "http://h.test/p?pre=0", "http://h.test/p?pre=0&pre=1#frag"] {
         let pre: Vec<(Vec<u8>, Vec<u8>)> = query_pairs(&base.split('#').next().unwrap()[13..]);
         for i in 0..keys.len() { for j in 0..vals.len() {
-            let r = wire_of(crate::get(base).param(keys[i], vals[j]).param("dup", 7).params(&[(keys[j], vals[i]), ("dup", "y")])); cases += 1;
+            let r = wire_of(crate::get(base).param(keys[i], vals[j]).param("dup", 7).params(&[(keys[j], vals[i]), ("dup", "y")])); cases += 1; crate::verif_native_watchdog::progress();
             let mut want = pre.clone();
             want.push((keys[i].as_bytes().to_vec(), vals[j].as_bytes().to_vec())); want.push((b"dup".to_vec(), b"7".to_vec()));
             want.push((keys[j].as_bytes().to_vec(), vals[i].as_bytes().to_vec())); want.push((b"dup".to_vec(), b"y".to_vec()));
             assert!(r.target.starts_with("/p?") && !r.target.contains('#') && !r.target.contains(' '), "target {:?}", r.target);
             assert_eq!(query_pairs(&r.target), want, "query pairs of {:?}", r.target);
         } }
-        let r = wire_of(crate::get(base).query(&[("q", "v w"), ("r", "&")]).unwrap()); cases += 1;
+        let r = wire_of(crate::get(base).query(&[("q", "v w"), ("r", "&")]).unwrap()); cases += 1; crate::verif_native_watchdog::progress();
         let mut want = pre.clone(); want.push((b"q".to_vec(), b"v w".to_vec())); want.push((b"r".to_vec(), b"&".to_vec()));
         assert_eq!(query_pairs(&r.target), want);
     }
     // authentication helpers
     for user in ["u", "user name", "ü:x", ""] { for pw in [None, Some(""), Some("p:w"), Some("pässword \u{1F511}")] {
-        let r = wire_of(crate::get("http://h.test/").basic_auth(user, pw)); cases += 1;
+        let r = wire_of(crate::get("http://h.test/").basic_auth(user, pw)); cases += 1; crate::verif_native_watchdog::progress();
         let want = format!("Basic {}", b64(format!("{}:{}", user, pw.unwrap_or("")).as_bytes()));
         assert_eq!(header(&r, "authorization"), vec![want.as_bytes()]);
     } }
-    let r = wire_of(crate::get("http://h.test/").bearer_auth("tok.en-123")); cases += 1;
+    let r = wire_of(crate::get("http://h.test/").bearer_auth("tok.en-123")); cases += 1; crate::verif_native_watchdog::progress();
     assert_eq!(header(&r, "authorization"), vec![&b"Bearer tok.en-123"[..]]);
     // header / header_append
-    let r = wire_of(crate::get("http://h.test/").header("X-A", "1").header_append("x-a", "2").header("X-B", "old").header("x-b", "new").header_append("X-C", &b"\xfe\xff"[..])); cases += 1;
+    let r = wire_of(crate::get("http://h.test/").header("X-A", "1").header_append("x-a", "2").header("X-B", "old").header("x-b", "new").header_append("X-C", &b"\xfe\xff"[..])); cases += 1; crate::verif_native_watchdog::progress();
     assert_eq!(header(&r, "x-a"), vec![&b"1"[..], b"2"]); assert_eq!(header(&r, "x-b"), vec![&b"new"[..]]); assert_eq!(header(&r, "x-c"), vec![&b"\xfe\xff"[..]]);
     // library bodies
     let bins: Vec<Vec<u8>> = vec![vec![], vec![0], (0..=255u8).collect(), b"0\r\n\r\n".to_vec(), piece(8192, 3), piece(8193, 4), piece(70000, 5)];
     for data in &bins {
-        let r = wire_of(crate::post("http://h.test/").bytes(data.clone())); cases += 1;
+        let r = wire_of(crate::post("http://h.test/").bytes(data.clone())); cases += 1; crate::verif_native_watchdog::progress();
         assert!(r.body == *data);
         assert_eq!(header(&r, "content-length"), vec![data.len().to_string().as_bytes()]);
-        let r = wire_of(crate::post("http://h.test/").header("Content-Type", "image/png").bytes(&data[..])); cases += 1;
+        let r = wire_of(crate::post("http://h.test/").header("Content-Type", "image/png").bytes(&data[..])); cases += 1; crate::verif_native_watchdog::progress();
         assert!(r.body == *data); assert_eq!(header(&r, "content-type"), vec![&b"image/png"[..]]);
         let path = std::env::temp_dir().join(format!("vp_native_body_{}_{}", std::process::id(), data.len()));
         std::fs::write(&path, data).unwrap();
-        let r = wire_of(crate::put("http://h.test/").file(std::fs::File::open(&path).unwrap())); cases += 1;
+        let r = wire_of(crate::put("http://h.test/").file(std::fs::File::open(&path).unwrap())); cases += 1; crate::verif_native_watchdog::progress();
         // a handle whose cursor is not at the start (the caller sniffed a few bytes / read it to the end): the body is still the whole file
         for skip in [1usize, 8, usize::MAX] {
             let mut f = std::fs::File::open(&path).unwrap();
             let mut sink = vec![0u8; skip.min(data.len())];
             if skip == usize::MAX { let mut all = Vec::new(); f.read_to_end(&mut all).unwrap(); } else { let _ = f.read(&mut sink).unwrap(); }
-            let r2 = wire_of(crate::put("http://h.test/").file(f)); cases += 1;
+            let r2 = wire_of(crate::put("http://h.test/").file(f)); cases += 1; crate::verif_native_watchdog::progress();
             assert!(r2.body == *data, "file body of {} bytes from a handle advanced by {}", data.len(), skip);
             assert_eq!(header(&r2, "content-length"), vec![data.len().to_string().as_bytes()], "Content-Length for a handle advanced by {}", skip);
         }
@@ -1619,34 +1621,34 @@ fn vp_native_builder_features_roundtrip_body() {
         assert!(r.body == *data, "file body of {} bytes", data.len()); assert_eq!(header(&r, "content-length"), vec![data.len().to_string().as_bytes()]);
     }
     for text in ["", "plain", "héllo \u{1F600}\r\n0\r\n\r\n"] {
-        let r = wire_of(crate::post("http://h.test/").text(text)); cases += 1;
+        let r = wire_of(crate::post("http://h.test/").text(text)); cases += 1; crate::verif_native_watchdog::progress();
         assert_eq!(r.body, text.as_bytes());
-        let r = wire_of(crate::post("http://h.test/").text(text.to_string()).header("content-type", "text/csv")); cases += 1;
+        let r = wire_of(crate::post("http://h.test/").text(text.to_string()).header("content-type", "text/csv")); cases += 1; crate::verif_native_watchdog::progress();
         assert_eq!(r.body, text.as_bytes()); assert_eq!(header(&r, "content-type"), vec![&b"text/csv"[..]]);
         // the caller's Content-Type set before the body setter is the one that is sent
-        let r = wire_of(crate::post("http://h.test/").header("Content-Type", "text/markdown").text(text)); cases += 1;
+        let r = wire_of(crate::post("http://h.test/").header("Content-Type", "text/markdown").text(text)); cases += 1; crate::verif_native_watchdog::progress();
         assert_eq!(r.body, text.as_bytes()); assert_eq!(header(&r, "content-type"), vec![&b"text/markdown"[..]], "a Content-Type set before text()");
     }
     {
         let path = std::env::temp_dir().join(format!("vp_native_body_ct_{}", std::process::id()));
         std::fs::write(&path, b"file data").unwrap();
-        let r = wire_of(crate::put("http://h.test/").header("content-type", "application/x-custom").file(std::fs::File::open(&path).unwrap())); cases += 1;
+        let r = wire_of(crate::put("http://h.test/").header("content-type", "application/x-custom").file(std::fs::File::open(&path).unwrap())); cases += 1; crate::verif_native_watchdog::progress();
         let _ = std::fs::remove_file(&path);
         assert_eq!(header(&r, "content-type"), vec![&b"application/x-custom"[..]], "a Content-Type set before file()");
-        let r = wire_of(crate::post("http://h.test/").header("Content-Type", "application/vnd.api+json").json(&vec![1]).unwrap()); cases += 1;
+        let r = wire_of(crate::post("http://h.test/").header("Content-Type", "application/vnd.api+json").json(&vec![1]).unwrap()); cases += 1; crate::verif_native_watchdog::progress();
         assert_eq!(header(&r, "content-type"), vec![&b"application/vnd.api+json"[..]], "a Content-Type set before json()");
-        let r = wire_of(crate::post("http://h.test/").header("Content-Type", "application/vnd.api+json").json_streaming(vec![1])); cases += 1;
+        let r = wire_of(crate::post("http://h.test/").header("Content-Type", "application/vnd.api+json").json_streaming(vec![1])); cases += 1; crate::verif_native_watchdog::progress();
         assert_eq!(header(&r, "content-type"), vec![&b"application/vnd.api+json"[..]], "a Content-Type set before json_streaming()");
-        let r = wire_of(crate::post("http://h.test/").header("Content-Type", "application/x-form-custom").form(&[("a", "b")]).unwrap()); cases += 1;
+        let r = wire_of(crate::post("http://h.test/").header("Content-Type", "application/x-form-custom").form(&[("a", "b")]).unwrap()); cases += 1; crate::verif_native_watchdog::progress();
         assert_eq!(header(&r, "content-type"), vec![&b"application/x-form-custom"[..]], "a Content-Type set before form()");
     }
-    let r = wire_of(crate::post("http://h.test/").json(&vec![1, 2, 3]).unwrap()); cases += 1;
+    let r = wire_of(crate::post("http://h.test/").json(&vec![1, 2, 3]).unwrap()); cases += 1; crate::verif_native_watchdog::progress();
     assert_eq!(r.body, b"[1,2,3]"); assert_eq!(header(&r, "content-length"), vec![&b"7"[..]]);
     let big: Vec<u32> = (0..5000).collect();
-    let r = wire_of(crate::post("http://h.test/").json_streaming(big.clone())); cases += 1;
+    let r = wire_of(crate::post("http://h.test/").json_streaming(big.clone())); cases += 1; crate::verif_native_watchdog::progress();
     let want = format!("[{}]", big.iter().map(|n| n.to_string()).collect::<Vec<_>>().join(","));
     assert!(r.body == want.as_bytes(), "streamed JSON body");
-    let r = wire_of(crate::post("http://h.test/").form(&[("a", "b c"), ("d", "&=é")]).unwrap()); cases += 1;
+    let r = wire_of(crate::post("http://h.test/").form(&[("a", "b c"), ("d", "&=é")]).unwrap()); cases += 1; crate::verif_native_watchdog::progress();
     let body = String::from_utf8(r.body.clone()).unwrap();
     assert_eq!(query_pairs(&format!("?{}", body)), vec![(b"a".to_vec(), b"b c".to_vec()), (b"d".to_vec(), "&=é".as_bytes().to_vec())]);
     assert_eq!(header(&r, "content-length"), vec![body.len().to_string().as_bytes()]);
@@ -1692,7 +1694,7 @@ fn vp_native_generated_requests_roundtrip_body() {
             3 => wire_of(b.body(Writes { pieces: vec![payload[..size / 2].to_vec(), vec![], payload[size / 2..].to_vec()], chunked: true })),
             _ => wire_of(b.body(Writes { pieces: vec![payload.clone()], chunked: false })),
         };
-        cases += 1;
+        cases += 1; crate::verif_native_watchdog::progress();
         let ctx = format!("case {} of seed {:x}: {} {} body kind {} of {} bytes", i, seed, method, base, kind, size);
         assert_eq!(rq.method, method.as_str(), "{}", ctx);
         assert!(!rq.target.contains('#') && !rq.target.contains('@') && rq.target.starts_with('/'), "target {:?} ({})", rq.target, ctx);
